@@ -38,3 +38,8 @@ native_unit("read_adapter_native", "winter-utils", "utils/core", "native/read_ad
              "ByteReader provided methods over ReadAdapter"],
             "after every operation ReadAdapter returns what SliceReader returns on the same bytes (value or error kind); look-ahead is never pessimistic; no panic",
             "NATIVE EXECUTION, not a proof: all operation sequences of length <= 3 over 19 operations on streams of 0..=12 bytes under 5 chunkings; 12000 (thorough: 60000) seeded sequences of 40 operations on streams of 0..=700 bytes under chunkings around the 256-byte internal buffer")
+
+native_unit("serde_native", "winter-utils", "utils/core", "native/serde_bounded.rs", ["C12"],
+            ["Serializable / Deserializable for usize (vint64), u8..u128, (), Option<T>, [T; C], Vec<T>, String, BTreeMap<K, V>, BTreeSet<T>, tuples of 1..6", "ByteReader::read_many / read_string / read_usize", "ReadAdapter and SliceReader as byte sources"],
+            "decode(encode(x)) == x, exactly the written bytes are consumed (a sentinel byte behind them is still there), re-encoding reproduces the bytes, and every strict prefix of the encoding is refused without a panic - with SliceReader, ReadAdapter over chunked readers and ReadAdapter over std::io::Cursor",
+            "NATIVE EXECUTION, not a proof: value lists in the file (both ends of every vint64 length class; containers of 0, 1, 2, 127..129, 255..257, 300 elements; multi-byte UTF-8 strings; nested containers; 1..6-tuples); reader chunk sizes 1, 2, 3, 7, 255, 256, 257")
